@@ -1,7 +1,165 @@
-// harness commands owned by property C14
+// harness commands owned by property C14 (formatting preserves the program and is idempotent)
 #![allow(unused_imports, dead_code)]
+use std::str::FromStr;
+
 use serde_json::{json, Value};
 
-pub fn dispatch(_cmd: &str, _req: &Value) -> Option<Value> {
-    None
+use crate::{errs, s};
+
+fn pl_json(src: &str) -> Result<(prqlc::pr::ModuleDef, Value), Value> {
+    match prqlc::prql_to_pl(src) {
+        Ok(pl) => match prqlc::json::from_pl(&pl) {
+            Ok(j) => Ok((pl, serde_json::from_str::<Value>(&j).unwrap_or(Value::Null))),
+            Err(e) => Err(errs(e)),
+        },
+        Err(e) => Err(errs(e)),
+    }
+}
+
+fn compile_to(src: &str, target: &str) -> Value {
+    // a panic while compiling (C12's business) must not hide the formatter's answers: keep its location only
+    let r = crate::guarded(|| compile_to_inner(src, target));
+    if let Some(p) = r.get("panic") {
+        return json!({"panic": p.get("loc").cloned().unwrap_or(Value::Null)});
+    }
+    r
+}
+
+fn compile_to_inner(src: &str, target: &str) -> Value {
+    let o = prqlc::Options::default()
+        .with_format(false)
+        .with_signature_comment(false)
+        .with_color(false);
+    let o = match prqlc::Target::from_str(target) {
+        Ok(t) => o.with_target(t),
+        Err(e) => return json!({"err_target": format!("{:?}", e.reason)}),
+    };
+    match prqlc::compile(src, &o) {
+        Ok(sql) => json!({ "ok": sql }),
+        Err(e) => {
+            // only the reasons: spans legitimately move when the source is re-formatted
+            let v: Vec<Value> = e.inner.iter().map(|m| json!(m.reason)).collect();
+            json!({ "err": v })
+        }
+    }
+}
+
+/// `c14 {src, targets:[..], compile:bool}`: everything the direct oracle needs about one source, in one call:
+///   pl   = json(prql_to_pl(src))                      (or err)
+///   fmt  = pl_to_prql(prql_to_pl(src))                (or fmt_err)
+///   pl2  = json(prql_to_pl(fmt))                      (or err: the formatter's output does not parse)
+///   fmt2 = pl_to_prql(prql_to_pl(fmt))
+///   sql / sql2 = compile(src) / compile(fmt) per target
+fn cmd_c14(req: &Value) -> Value {
+    let src = s(req, "src");
+    let (pl, plj) = match pl_json(src) {
+        Ok(x) => x,
+        Err(e) => return json!({ "parse_err": e }),
+    };
+    let mut out = json!({ "pl": plj });
+    let fmt = match prqlc::pl_to_prql(&pl) {
+        Ok(t) => t,
+        Err(e) => {
+            out["fmt_err"] = errs(e);
+            return out;
+        }
+    };
+    out["fmt"] = json!(fmt);
+    match pl_json(&fmt) {
+        Ok((pl2, plj2)) => {
+            out["pl2"] = plj2;
+            match prqlc::pl_to_prql(&pl2) {
+                Ok(t) => out["fmt2"] = json!(t),
+                Err(e) => out["fmt2_err"] = errs(e),
+            }
+        }
+        Err(e) => out["pl2_err"] = e,
+    }
+    if req.get("compile").and_then(|v| v.as_bool()).unwrap_or(true) {
+        let mut a = serde_json::Map::new();
+        let mut b = serde_json::Map::new();
+        if let Some(ts) = req.get("targets").and_then(|v| v.as_array()) {
+            for t in ts {
+                if let Some(t) = t.as_str() {
+                    a.insert(t.to_string(), compile_to(src, t));
+                    b.insert(t.to_string(), compile_to(&fmt, t));
+                }
+            }
+        }
+        out["sql"] = Value::Object(a);
+        out["sql2"] = Value::Object(b);
+    }
+    out
+}
+
+/// `c14lit {src}`: the token kinds of a source (no spans): used to see what a printed literal / identifier lexes back to.
+fn cmd_c14lex(req: &Value) -> Value {
+    match prqlc::prql_to_tokens(s(req, "src")) {
+        Ok(t) => {
+            let v: Vec<Value> = t
+                .0
+                .iter()
+                .map(|t| serde_json::to_value(&t.kind).unwrap_or(Value::Null))
+                .collect();
+            json!({ "ok": v })
+        }
+        Err(e) => {
+            let v: Vec<Value> = e.inner.iter().map(|m| json!(m.reason)).collect();
+            json!({ "err": v })
+        }
+    }
+}
+
+/// `c14display {kind, ...}`: Display of one Literal built directly (no parser involved).
+fn cmd_c14display(req: &Value) -> Value {
+    use prqlc::lr::Literal;
+    let lit = match s(req, "kind") {
+        "string" => Literal::String(s(req, "s").to_string()),
+        "raw" => Literal::RawString(s(req, "s").to_string()),
+        "int" => Literal::Integer(req.get("i").and_then(|v| v.as_i64()).unwrap_or(0)),
+        "float" => {
+            let f = match req.get("bits").and_then(|v| v.as_u64()) {
+                Some(b) => f64::from_bits(b),
+                None => s(req, "f").parse::<f64>().unwrap_or(0.0),
+            };
+            Literal::Float(f)
+        }
+        "bool" => Literal::Boolean(req.get("b").and_then(|v| v.as_bool()).unwrap_or(false)),
+        "null" => Literal::Null,
+        "date" => Literal::Date(s(req, "s").to_string()),
+        "time" => Literal::Time(s(req, "s").to_string()),
+        "timestamp" => Literal::Timestamp(s(req, "s").to_string()),
+        "unit" => Literal::ValueAndUnit(prqlc::lr::ValueAndUnit {
+            n: req.get("i").and_then(|v| v.as_i64()).unwrap_or(0),
+            unit: s(req, "s").to_string(),
+        }),
+        _ => return json!({"bad_kind": s(req, "kind")}),
+    };
+    let text = lit.to_string();
+    let mut out = json!({ "text": text });
+    // what the text lexes back to
+    match prqlc::prql_to_tokens(&text) {
+        Ok(t) => {
+            let v: Vec<Value> = t
+                .0
+                .iter()
+                .map(|t| serde_json::to_value(&t.kind).unwrap_or(Value::Null))
+                .collect();
+            out["lex"] = json!(v);
+        }
+        Err(e) => {
+            let v: Vec<Value> = e.inner.iter().map(|m| json!(m.reason)).collect();
+            out["lex_err"] = json!(v);
+        }
+    }
+    out
+}
+
+pub fn dispatch(cmd: &str, req: &Value) -> Option<Value> {
+    match cmd {
+        "c14" => Some(cmd_c14(req)),
+        "c14lex" => Some(cmd_c14lex(req)),
+        "c14display" => Some(cmd_c14display(req)),
+        _ => None,
+    }
 }
